@@ -602,6 +602,63 @@ JSONSerializableTypeRegistry().register(
     RegisteredNode, lambda obj: obj.to_json(), _mk_deser(RegisteredNode, lambda v: RegisteredNode(value=v)))
 
 
+# never-registered classes that SHARE `__module__ + "." + __name__` with a registered type (C19) -----------------------
+# The identity of a class is the class OBJECT. Distinct classes can carry one qualified name: the pure-Python twin of a
+# C type (`_pydecimal.Decimal.__module__ == "decimal"`), a nested class re-exported at module level, a class made by
+# `type(name, …)` / a factory and bound to another attribute, a class object left over from before a module reload,
+# a class that another module re-exports under its own attribute name. None of them was ever registered, so a tag
+# that names one of them (through the attribute it is reachable under) is not deserialisable.
+import decimal as _decimal  # noqa: E402
+
+EXT[_decimal.Decimal] = (str, _decimal.Decimal)  # a registered C type that has a pure-Python twin in the stdlib
+JSONSerializableTypeRegistry().register(_decimal.Decimal, _mk_ser(_decimal.Decimal, str), _mk_deser(_decimal.Decimal, _decimal.Decimal))
+
+IDENT_OVERRIDE: Dict[type, str] = {}  # class -> identity in case lines, where module:qualname would not tell it apart
+TWINS: List[Tuple[str, str, type, type]] = []  # (module, attribute) it is reachable under, the twin, the registered class
+
+
+def _payload_init(self, s: str = ""):
+    self.s = s
+
+
+def _add_twin(mod: types.ModuleType, attr: str, of: type, bases=(), twin: Optional[type] = None) -> type:
+    if twin is None:
+        twin = type(of.__name__, tuple(bases), {"__init__": _payload_init, "__module__": of.__module__, "__hash__": None})
+    assert twin is not of and twin.__module__ == of.__module__ and twin.__name__ == of.__name__
+    setattr(mod, attr, twin)
+    IDENT_OVERRIDE[twin] = f"{mod.__name__}:{attr}"
+    TWINS.append((mod.__name__, attr, twin, of))
+    return twin
+
+
+class Legacy:  # nested classes, re-exported at module level below
+    class Money2:
+        pass
+
+    class Vec:
+        def __iter__(self):
+            return iter(())
+
+
+_THIS = sys.modules[__name__]
+_add_twin(_THIS, "MoneyTwin", Money)  # `type("Money", …)` bound to another attribute of the same module
+_add_twin(_THIS, "LegacyMoney2", Money2, twin=Legacy.Money2)  # nested class re-exported at module level
+_add_twin(_THIS, "LegacyVec", Vec, twin=Legacy.Vec)
+_add_twin(_THIS, "MoneyBeforeReload", Money, bases=(Money,))  # a SUBCLASS carrying its registered base's name
+_add_twin(_THIS, "RegisteredNodeTwin", RegisteredNode)  # plain class named like a registered serializer class
+_add_twin(_THIS, "NodeTwin", Node)  # plain class named like a serializer class (nothing registered under that name)
+_add_twin(MOD_A, "UUIDReexport", uuid.UUID)  # another module re-exports a class that calls itself uuid.UUID
+_add_twin(MOD_A, "MoneyOfB", MOD_B.Money)  # … and one that calls itself like a registered class of a third module
+_add_twin(MOD_B, "Fraction", Fraction)  # reachable under the same attribute NAME in another module
+try:
+    import _pydecimal  # noqa: E402
+    if _pydecimal.Decimal is not _decimal.Decimal and _pydecimal.Decimal.__module__ == "decimal":
+        IDENT_OVERRIDE[_pydecimal.Decimal] = "_pydecimal:Decimal"
+        TWINS.append(("_pydecimal", "Decimal", _pydecimal.Decimal, _decimal.Decimal))
+except ImportError:  # pragma: no cover
+    pass
+
+
 def implements_from_json(cls) -> bool:
     return getattr(cls._from_json, "__func__", None) is not SubclassJSONSerializer._from_json.__func__
 
@@ -623,6 +680,8 @@ ALIAS: Dict[type, Tuple[str, str, str]] = {}  # real history class -> (ident, mo
 def ident(cls) -> str:
     if cls in ALIAS:
         return ALIAS[cls][0]
+    if cls in IDENT_OVERRIDE:
+        return IDENT_OVERRIDE[cls]
     return f"{cls.__module__}:{cls.__qualname__}"
 
 
